@@ -774,6 +774,39 @@ func ruleLookAhead(c *Ctx, rule string) {
 				}
 			}
 		}
+		// every other return after the look-ahead reports a failure: its error is non-nil (the look-ahead's own error only
+		// where it was found non-nil)
+		okFail, whyF := true, ""
+		for _, ret := range returnsOf(fn) {
+			if !c2.Block().Dominates(ret.Block()) && !(c2.Block() == ret.Block()) {
+				continue
+			}
+			t := returnTuple(ret)
+			if len(t) < 3 || (t[0] != nil && !isNilConst(t[0])) {
+				continue // a delivering return (judged above)
+			}
+			e := t[len(t)-1]
+			if e == nil {
+				okFail, whyF = false, "cannot determine the error returned at "+w.At(ret)
+				continue
+			}
+			good := false
+			if isLocalError(e) {
+				good = true
+			}
+			for _, f := range factsAt(ret) {
+				if x, op, y, isCmp := cmpFact(f); isCmp && op == token.NEQ && isNilConst(y) && (stripConv(x) == stripConv(e) || origin(x) == origin(e)) {
+					good = true
+				}
+				if x, op, y, isCmp := cmpFact(f); isCmp && op == token.EQL && desc(y) == "*global:EOF" && (stripConv(x) == stripConv(e) || origin(x) == origin(e)) {
+					good = true // it is io.EOF
+				}
+			}
+			if !good {
+				okFail, whyF = false, "the return at "+w.At(ret)+" yields no message and an error that may be nil"
+			}
+		}
+		c.check(okFail, rule, name+": no return after the look-ahead yields (nothing, nil)", w.At(c2), "every non-delivering return after the look-ahead carries a non-nil error", whyF+": when the look-ahead finds a second message the method reports success with no data — an empty message is fabricated for the application and the call-shape violation goes unnoticed")
 		c.check(okDeliver && nDel >= 1, rule, name+": first message delivered only after EOF on an intact stream", w.At(c2), "every path from the look-ahead to the delivering return has err2 == io.EOF && ok2", why+": the first message is delivered (success) although the look-ahead ended with a different error or a broken stream — e.g. a non-OK status from the peer would be swallowed")
 	}
 }
